@@ -47,7 +47,7 @@ def coq_bytes(s):
 
 def generate():
     out = ["(* GENERATED on every run by lib/gen_tables.py from /repo's source -- do not edit. *)",
-           "From Az65 Require Import Base.", "Open Scope N_scope.", ""]
+           "From Az65 Require Import Base.", "Local Open Scope N_scope.", ""]
     status = {}
     for prefix, path, header in TABLES:
         rows = extract(path, header)
